@@ -148,6 +148,7 @@ REVERTS = [
     ("optimization_options=None / solver_options=None must be accepted", ["C19"]),
     ("stDiGraph.get_width must count an ignored edge once", ["C09"]),
     ("safe-sequence computation must not recurse once per node of a path", ["C09"]),
+    ("flow decomposition models must accept numpy-typed flow values", ["C19"]),
 ]
 
 
